@@ -2,6 +2,7 @@ import FatVerif.Model.Util
 import FatVerif.Model.Basic
 import FatVerif.Model.Lfn
 import FatVerif.Spec.DirSpec
+import FatVerif.Model.DirSlots
 /-!
 pure-probe driver for suite `lfn` (see /verif/ARCH.md).
 
@@ -25,6 +26,14 @@ Probes
   `vol` = `read_volume_label_from_root_dir_as_bytes()` as `none`/hex11 for `root`, `-` for `sub`.
 * `lfn.range <alloc 0|1> <slot-hex32,…> => <begin:end,begin:end,…|->`
   `offset_range / 32` of every entry, observed through `Dir::remove` (which marks exactly that range deleted).
+* `lfn.create <alloc> <root|sub> <before-slots> <name-units-hex4> <after-slots|-> => ok | ERR <code> | PANIC`
+  `create_file(name)` in a planted directory; `before`/`after` = ALL slots of the directory's allocated space (64-slot
+  fixed root / cluster chain) read back from the image.  The observation is in the arguments; the model answers `ok`
+  iff `after = writeEntry before units sfn'` (`DirSlots.checkCreate`), and predicts `ERR 3` (`WriteZero`) exactly when
+  the fixed root has no room (`findFree before n + n > 64`).
+* `lfn.remove <alloc> <root|sub> <before-slots> <j> <after-slots|-> => ok | ERR <code> | PANIC`
+  `remove` of the `j`-th listed entry (by its unique short name); `ok` iff `after = deleteRange before b e` for that
+  entry's range (`DirSlots.checkDelete`).
 -/
 namespace FatVerif.LfnDriver
 open FatVerif FatVerif.Util FatVerif.Lfn
@@ -95,6 +104,30 @@ def handle (fn : String) (args : List String) : Option String :=
     match readDirEntries? alloc true slots with
     | none => some "PANIC"
     | some es => some (showRanges es)
+  | "lfn.create", [_a, place, bs, u, as] => do
+    let before ← bytesListOfHex bs
+    let units ← unitsOfHex u
+    let num := if DirSlots.isDotUnits units then 1 else numParts units.length + 1
+    let p := DirSlots.findFree before num
+    if as = "-" then
+      some (if place = "root" ∧ p + num > before.length then "ERR 3" else "ok")
+    else do
+      let after ← bytesListOfHex as
+      let sfn11 := sfnName (after.getD (p + num - 1) [])
+      match DirSlots.checkCreate before after units sfn11 with
+      | none => some "ok"
+      | some msg => some ("create-" ++ msg.replace " " "_")
+  | "lfn.remove", [_a, _place, bs, j, as] => do
+    let before ← bytesListOfHex bs
+    let j ← natOf j
+    if as = "-" then some "ok" else do
+      let after ← bytesListOfHex as
+      match (DirSlots.listing before)[j]? with
+      | none => some "no-such-entry"
+      | some e =>
+        match DirSlots.checkDelete before after e.beginIdx e.endIdx with
+        | none => some "ok"
+        | some msg => some ("delete-" ++ msg.replace " " "_")
   | _, _ => none
 
 /-! ### oracles on the implementation's output -/
@@ -222,6 +255,16 @@ def branch (fn : String) (args : List String) : String :=
         (if noEnd then "/eof" else "/endmark") ++ (if cleanStarts false slots then "/clean" else "/restart")
     | _, _ => "-"
   | "lfn.range", [a, _] => s!"a{a}"
+  | "lfn.create", [a, place, bs, u, as] =>
+    match bytesListOfHex bs, unitsOfHex u with
+    | some before, some units =>
+      let num := numParts units.length + 1
+      let p := DirSlots.findFree before num
+      let endIdx := (before.findIdx? fun s => isEnd s).getD before.length
+      s!"a{a}/{place}/" ++ (if as = "-" then "fail" else if p + num ≤ endIdx then "reclaimed"
+        else if p < endIdx then "trailing-run-quirk" else if p + num ≤ before.length then "at-end-marker" else "grow")
+    | _, _ => "-"
+  | "lfn.remove", [a, place, _, _, _] => s!"a{a}/{place}"
   | _, _ => "-"
 
 end FatVerif.LfnDriver
